@@ -23,17 +23,11 @@ echo "-- demo with change"
 PYTHONPATH=$WT timeout 300 /venv/bin/python /tmp/cm/$ID-demo.py > /tmp/cm/$ID-demo-mut.out 2>&1; rc_mut=$?
 echo "rc_mut=$rc_mut"
 echo "-- suite with change"
-timeout 3000 /venv/bin/python -m pytest -q -p no:cacheprovider --timeout=900 -n 10 -k "not spark" > /tmp/cm/$ID-suite.log 2>&1
+timeout 3000 /venv/bin/python -m pytest -q -p no:cacheprovider --timeout=900 -n 10 -k "not spark and not hypothesis" > /tmp/cm/$ID-suite.log 2>&1
 tail -1 /tmp/cm/$ID-suite.log
 python3 /verif/tools/suite_vs_baseline.py /tmp/cm/$ID-suite.log > /tmp/cm/$ID-cmp.txt; cat /tmp/cm/$ID-cmp.txt | head -3
-# re-run stable tests that failed, serially (hypothesis deadlines are load sensitive)
-grep STABLE-FAIL /tmp/cm/$ID-cmp.txt | awk '{print $2}' | sed 's#\.#/#g; s#/py::#.py::#; s#::#.py::#; s#\.py\.py#.py#' > /tmp/cm/$ID-rerun.txt
 serial_ok=1
-if [ -s /tmp/cm/$ID-rerun.txt ]; then
-  # convert "cubed/tests/array/test_nan_functions.py::name" list
-  timeout 3000 /venv/bin/python -m pytest -q -p no:cacheprovider --timeout=900 $(cat /tmp/cm/$ID-rerun.txt | tr '\n' ' ') > /tmp/cm/$ID-rerun.log 2>&1 || serial_ok=0
-  tail -1 /tmp/cm/$ID-rerun.log
-fi
+grep -q STABLE-FAIL /tmp/cm/$ID-cmp.txt && serial_ok=0
 echo "serial_ok=$serial_ok"
 if [ $rc_clean -eq 0 ] && [ $rc_mut -ne 0 ] && [ $serial_ok -eq 1 ]; then
   D=/verif/seeded/$ID; mkdir -p $D
